@@ -20,7 +20,7 @@ ap.add_argument('-j', type=int, default=8)
 ap.add_argument('-v', action='store_true')
 args = ap.parse_args()
 VERIF = os.path.dirname(os.path.dirname(os.path.abspath(__file__)))
-BIN = os.path.join(VERIF, 'bin', 'hopverif')
+BIN = os.environ.get('HOPVERIF_BIN') or os.path.join(VERIF, 'bin', 'hopverif')
 
 def rename_edits(m):
     """{"rename": {"dir": "transport", "old": "foo", "new": "bar"}}: word-boundary rename in every non-test file of dir"""
